@@ -35,7 +35,7 @@ PROPS = {
         "file": "C04.v",
         "streams": [S("qc", 150, 3000, timeout=2400), S("ql", 100, 2000), S("conc", 24, 400, timeout=2400, race=True), S("cache", 150, 2500, focus="C04")],
         "claim": "Theorems over QueueLts, an atomic-step labelled transition system of one shard's write pipeline written statement by statement from mpsc.go / writes.go / cache.go (each step runs one thread from one yield point to the next): for every ring size n >= 2, batch size, number of producers / synchronous writers / Sync, Clear, Close callers / miss helpers, the worker, every schedule and every resolution of two-way selects: the ring invariant (no published command overwritten, laps and back-pressure included; n = 1 refuted), queue-applied commands are a prefix of the reservation order each applied exactly once, every nil-returned SetAsync is published / in the consumer's batch / applied, and (repaired code) real-time order: a write that returned before another was invoked is applied before it, for any mix of SetAsync, Set and Delete; the original syncMutate is refuted on the model (finding F13, replayed on the real code, fixed). Tied to /repo by T-lockstep at two levels: `ql` (the real mpscQueue) and `qc` (the real cache: SetAsync/Set/Sync/Close/Get-miss callers and the adopted write worker) run under the cooperative scheduler on random schedules, and after EVERY step the yield point or result and the shared state (head, tail, wakeState, wake/space tokens, closeCh, drain token) are compared with the extracted LTS; plus deterministic schedule probes (stalled producer, sync overtake, sync fence with a dequeued-but-unapplied batch), free-running stress with per-key linearizability windows, and the cache stream's queued batches (drain tokens held so that SetAsync goes through applyWriteBatch, Sync/Clear issued while the batch is queued).",
-        "note": "Trusted: Coq kernel, extraction, driver, harness, scheduler hooks (verifYield points; adoption of the worker goroutine). sync/atomic operations and channel sends/receives are single steps of the LTS; positions are unbounded integers (the 64-bit wrap of head/tail after 2^64 writes is not modelled). Pending second delivery of the proof file: sync_fence, no_lost_wake/progress ('visible within bounded time with no further calls') are currently covered by the lock-step streams and the deadlock monitor only: partial for those two clauses until QueueLtsProofs is extended.",
+        "note": "Trusted: Coq kernel, extraction, driver, harness, scheduler hooks (verifYield points; adoption of the worker goroutine). sync/atomic operations and channel sends/receives are single steps of the LTS; positions are unbounded integers (the 64-bit wrap of head/tail after 2^64 writes is not modelled). 'Visible within bounded time with no further calls' is proved as: no lost wake-up + some responsible thread is always enabled (progress); real-time bounds and scheduler fairness are the runtime's. Not modelled: the extra wake signal sent by read sampling (a spurious token), Clear's effect on the table (CacheProofs covers it functionally), multi-shard loops of Sync/Clear/Close (shards are independent; the conc and cache streams use up to 8).",
         "assumptions": ["atomics and channel operations are sequentially consistent single steps", "Go's random choice in a two-way select with both cases ready is an oracle bit; theorems hold for both choices"],
     },
     "C05": {
@@ -79,6 +79,20 @@ PROPS = {
         "claim": "Theorems over CallbackLts (virtual time; one timer thread per SetWithCallback call; arbitrary interleavings with Set, Delete, Clear, expiry removal and Close; every schedule and timing): at most once per call, never before its own deadline, never for a timer that elapses after Close returned, own key and value, nothing scheduled for failed/rejected/non-expiring writes, not when the key was deleted, cleared or rewritten with another deadline, no lock held while the callback runs. The Delete-then-shorter-re-Set defect (F11) is fixed and kept as a regression theorem; the same-deadline residual is stated explicitly. Tied to /repo by scenario runs under the virtual cache clock with real timers, callbacks re-entering the cache on their own key.",
         "note": "Trusted: Coq kernel, harness, virtual-clock hook; timer accuracy and goroutine scheduling are the runtime's. The LTS is hand-written from writes.go/cache.go and tied only by the scenario stream (no extracted-model diff for this property).",
         "assumptions": ["distinct deadlines for distinct writes of one key (B6); one shard suffices"],
+    },
+    "C07": {
+        "file": "C07.v",
+        "streams": [S("qc", 150, 3000, timeout=2400), S("ql", 100, 2000), S("conc", 24, 400, timeout=2400, race=True), S("cb", 1, 4, no_model=True)],
+        "claim": "Theorems over QueueLts for every ring size >= 2, batch >= 1, thread mix, schedule and select choice: the lock discipline (a thread blocked on the drain token holds nothing; blocked on the shard lock it holds at most the token; blocked on a channel or workers.Wait it holds nothing; every inline path uses TryLock and is always enabled), no lost wake-up (a published command at tail with a free token on an open cache always has a pending wake token, an active worker section or a producer about to signal), the coalescing flag is sound, progress (whenever work is ready a responsible thread is enabled), the repaired synchronous writer's wait depends only on never-blocked producer steps, Close's broadcast enables every producer blocked on a full ring, Close waits for the workers; MutexAtomicity: the two-lock order is deadlock free for arbitrary scripts; CallbackProofs: callbacks run with no lock held. Tied to /repo by the ql/qc lock-step streams (every step of random schedules compared, enabledness computed from the real state, a deadlock monitor at schedule end), the conc stream (every public call under a 15 s watchdog in stress with back-pressure rings of 2, concurrent Sync/Clear/Close, re-entrant listeners and callbacks; Close races counting goroutines), and the cb stream (callbacks re-entering the cache).",
+        "note": "Trusted: Coq kernel, extraction, driver, harness, scheduler hooks. Liveness is proved as enabledness (some responsible thread can always step); 'bounded time' additionally needs the Go scheduler's fairness and is observed only through watchdogs. Removal listeners re-entering the cache are covered by the conc stream, not by a theorem, except for the known finding F7 (a listener that calls Close never returns), which the check reports as KNOWN-FINDING.",
+        "assumptions": ["Go scheduler fairness for the step from 'enabled' to 'returns in bounded time'", "atomics and channel operations are single sequentially consistent steps"],
+    },
+    "C08": {
+        "file": "C08.v",
+        "streams": [S("qc", 150, 3000, timeout=2400), S("conc", 24, 400, timeout=2400), S("cache", 150, 2500, focus="C08"), S("reg", 20, 300)],
+        "claim": "Theorems: at most one thread is ever inside Close, a second Close waits and then returns, Close after completion returns at once and changes nothing, Close returns only after every write worker exited, producers blocked on a full queue are released with ErrCacheClosed unless their write was still accepted (QueueLts, every schedule); on a closed cache every Set/SetAsync/SetWithCallback refuses and changes nothing, Sync fails, Get/GetWithTTL miss, Exists/Delete are false, Keys is empty, Clear/Cleanup/Close are the identity (CacheProofs); a callback timer that reaches its select after Close returned never calls (CallbackProofs). Tied to /repo by the qc lock-step (a Close caller in a third of the schedules, stepped against the model through flush, broadcast, join and clear), the conc stream's close races (Close landing at random points of in-flight operations of every kind, results after Close checked, goroutine count back to the baseline within 3 s for every policy / listener / cleanup / callback setting), the cache stream (operations after Close) and the reg stream (Remove/CloseAll goroutine deltas).",
+        "note": "Trusted: Coq kernel, extraction, driver, harness. Goroutine release for the notifier, cleanup ticker and callback timers is checked by counting goroutines after Close (runtime observation), not proved; the write workers' exit is proved. Known finding F7 (Close called from a removal listener waits for itself) is reported as KNOWN-FINDING.",
+        "assumptions": ["'shortly after Close returns' is checked with a 3 s bound"],
     },
     "C09": {
         "file": "C09.v",
